@@ -69,6 +69,9 @@ def build_image(case: Dict[str, Any], seed: int = 0, overrides: Optional[Dict[st
     fat[-1] = 0xFFFF
     put(buf, A["fat"], struct.pack(f"<{len(fat)}H", *fat))
 
+    spread = bool(img.get("spread"))
+    sl = (lambda k: k if (not spread or k == 0) else k + 4)      # logical number -> record index
+
     def dirent(kind, i, name, fat_entry=0, ncl_=0):
         put(buf, A[f"{kind}_dir"] + 32 * i,
             pack("roland_dir_entry", dict(name=name, file_type=FT[kind], file_attributes=0, forward_link_ptr=0,
@@ -76,31 +79,35 @@ def build_image(case: Dict[str, Any], seed: int = 0, overrides: Optional[Dict[st
     for i, v in enumerate(img["vols"]):
         dirent("volume", i, v["name"])
         put(buf, A["volume_param"] + 0x100 * i,
-            pack("roland_volume_param", dict(name=v["name"], performance_ptrs=s16list(sorted(v["perfs"]), 64))))
-    for i, p in enumerate(img["perfs"]):
+            pack("roland_volume_param", dict(name=v["name"], performance_ptrs=s16list(sorted(sl(x) for x in v["perfs"]), 64))))
+    for i0, p in enumerate(img["perfs"]):
+        i = sl(i0)
         dirent("performance", i, p["name"])
         put(buf, A["performance_param"] + 0x200 * i,
-            pack("roland_performance_param", dict(name=p["name"], patch_list=s16list(sorted(p["patches"]), 32),
+            pack("roland_performance_param", dict(name=p["name"], patch_list=s16list(sorted(sl(x) for x in p["patches"]), 32),
                                                   **{k: bytes(n) for k, n in (("parts_patch_selection", 32), ("midi_channel_data", 16),
                                                      ("parts_level", 32), ("parts_zone_lower", 32), ("parts_zone_upper", 32),
                                                      ("parts_fade_width_lower", 32), ("parts_fade_width_upper", 32),
                                                      ("velocity_curve_type_data", 16))})))
-    for i, p in enumerate(img["patches"]):
+    for i0, p in enumerate(img["patches"]):
+        i = sl(i0)
         dirent("patch", i, p["name"])
-        plist = sorted(p["partials"])
+        plist = sorted(sl(x) for x in p["partials"])
         keys = [plist[k % len(plist)] for k in range(88)] if p.get("spread", True) else plist
         put(buf, A["patch_param"] + 0x200 * i,
             pack("roland_patch_param", dict(name=p["name"], partial_list=s16list(keys, 88),
                                             keys_partial_selection=bytes(88), keys_assign_type=bytes(88), bender=bytes(4),
                                             after_touch=bytes(7), modulation=bytes(4), controller=bytes(8))))
-    for i, p in enumerate(img["partials"]):
+    for i0, p in enumerate(img["partials"]):
+        i = sl(i0)
         dirent("partial", i, p["name"])
-        refs = list(p["refs"]) + [-1] * (4 - len(p["refs"]))
+        refs = [sl(x) for x in p["refs"]] + [-1] * (4 - len(p["refs"]))
         put(buf, A["partial_param"] + 0x80 * i,
             pack("roland_partial_param", dict(name=p["name"], sample_1=partial_sample(refs[0]), sample_2=partial_sample(refs[1]),
                                               sample_3=partial_sample(refs[2]), sample_4=partial_sample(refs[3]),
                                               tvf=bytes(21), tva=bytes(16), lfo_generator=bytes(9))))
-    for i, s in enumerate(img["samples"]):
+    for i0, s in enumerate(img["samples"]):
+        i = sl(i0)
         dirent("sample", i, s["name"], s["chain"][0], len(s["chain"]))
         put(buf, A["sample_param"] + 0x30 * i, sample_param(s))
     return bytes(buf)
